@@ -39,8 +39,12 @@ def plan(tier):
 def fix_docs(desc, rng):
     """Doc blocks never start with an empty comment (pydsdl drops leading empty comment lines; not asserted)."""
     for sec in desc["sections"]:
-        if sec["header"] and sec["header"][0] == "":
+        if sec["header"] and sec["header"][0] == "" and any(sec["header"]):
             sec["header"][0] = "header"
+        if sec["header"] and not any(sec["header"]):
+            sec["header"] = [""]
+        # a header block that consists of an empty comment line only stays: it is a block of its own (doc ''), and what follows it after
+        # an empty line is detached from the header
         for it in sec["items"]:
             block = ([it["same"]] if it["same"] is not None else []) + it["follow"]
             if block and block[0] == "":
